@@ -396,6 +396,12 @@ func c14Build(scenario int, mon *c14Mon, round int) (jobs []c14Job, finish []fun
 	case 1: // a CharRecipe variable used by value from many goroutines (captured by reference)
 		var r spg.CharRecipe = spg.CharRecipe{Length: 8 + round%6, Allow: spg.Digits | spg.Lowers, RequireSets: []string{"abc"}}
 		jobs = append(jobs, charJob("CharRecipe variable", func() spg.CharRecipe { return r }, nil))
+		// requirements that are declared and vacuous (empty custom sets are documented to be ignored): whatever
+		// shortcut such a recipe takes, what it returns must be complete when it returns
+		rv := &spg.CharRecipe{Length: 9 + round%3, Allow: spg.Lowers, RequireSets: []string{""}}
+		jobs = append(jobs, charJob("shared *CharRecipe with an empty custom set", func() spg.CharRecipe { return *rv }, rv))
+		var rw spg.CharRecipe = spg.CharRecipe{Length: 6 + round%4, AllowChars: "abc123", RequireSets: []string{"", ""}}
+		jobs = append(jobs, charJob("CharRecipe variable with two empty custom sets", func() spg.CharRecipe { return rw }, nil))
 	case 2: // *WLRecipe for each scheme, preset separators
 		for i, sch := range schemes {
 			jobs = append(jobs, wlJob(newWLShared("shared *WLRecipe/"+sch, words, 4, sch, presetNames[1+i%6], "")))
